@@ -398,6 +398,8 @@ def run(ctx, R, tier):
         R.check(not bad, "C05-R8", "module|%s" % mn, "every local read in the %d functions of this module is assigned on all paths leading to the read" % len(by_mod[mn]), mn.replace(".", "/") + ".py",
                 ("`%s` can be read at %s before it is assigned on some path through %s (NameError at run time)" % (bad[0][1][0], bad[0][0].loc(bad[0][1][1]), bad[0][0].qualname)) if bad else "")
 
+    from .common import names_bound
+    names_bound(ctx, R, "C05-R8", R8_MODULES, "in a containing handler or on an error path of the request loop that is an exception of a class nothing expects")
 
 R8_MODULES = frozenset("Pyro5." + m for m in ("server", "svr_threads", "svr_multiplex", "svr_existingconn", "protocol", "socketutil", "serializers", "core",
                                                 "callcontext", "client"))
